@@ -1871,8 +1871,14 @@ class Pipeline:
         )
         between = _find_nodes_between(pipeline.graph, input_nodes, output_nodes)
         drop = [f for f in pipeline.functions if f not in between]
+        # Drop all at once and validate the result only: a pipeline from which only some of these
+        # functions are removed may be ill-formed (e.g., an argument whose producer is already gone
+        # looks like a root argument with inconsistent defaults) although the sub-pipeline is not.
         for f in drop:
-            pipeline.drop(f=f)
+            pipeline.functions.remove(f)
+        if drop:
+            pipeline._clear_internal_cache()
+            pipeline._validate()
 
         if inputs is not None:
             new_root_args = set(pipeline.topological_generations.root_args) - set(pipeline.defaults)
